@@ -183,8 +183,9 @@ def _trim_app(A):
     if not O.geometry_finite(arr) or s is None or e is None:
         return False
     df = A["self"].df
-    if any(df[c].dtype.kind != "f" for c in ("x", "y", "z")):
-        return False
+    kinds = {df[c].dtype.kind for c in ("x", "y", "z")}
+    if not (kinds <= {"f"} or (kinds <= {"f", "i", "u"} and bool(np.all(s == np.round(s))))):
+        return False                      # a fractional offset cannot be stored in integer columns (pandas 3 raises)
     keep, exp = O.trim_expected(arr, s, e)
     A["_c09"] = dict(arr=arr, s=s, e=e, keep=keep, exp=exp)
     return True
